@@ -140,4 +140,16 @@ PROPS = {
                       "implicit panics (nil dereference, index, type assertion) are found by the harness only"],
         assumptions=["optional-field discovery needs at most 3 rebuilds on the prototype schemas (depth of optional nesting), leaving 2 of the 5 allowed retries to dictionary events"],
     ),
+    "C07": dict(
+        runs=[dict(harness="codec", name="faults",
+                   args=lambda tier, seed, casedir, coq: ["faults", "--n", str(q(tier, 40, 800)), "--seed", str(seed)], timeout=3000, coq_timeout=3000)],
+        rule="for each of the three signals: a valid prefix of 1-3 batches through the real producer/consumer, then the next batch altered by ~21 fault lists (every single fault kind: relabel to an "
+             "unknown / another / the main type, drop, duplicate, swap, reverse, empty, unknown schema id, stale schema id when the stream has one; pairs of random faults; the unaltered batch), each on "
+             "a fresh consumer that consumed the prefix; then one more valid batch (only the consumer's own stream table must not crash there). The IPC library's answers per payload are logged by the "
+             "verif hook and fed to the Coq model, whose verdict must be compatible with the real result",
+        trusted_base=["arrow-go IPC reader behaviour on damaged payloads is an input of the model (observed through the verif hook in Consumer.Consume)",
+                      "the table decoders' verdict is not observed: the model may say decoded/nothing where the real consumer reports a decoding error"],
+        assumptions=["payload-level faults only; sending one sub-stream's bytes under another live schema id (splicing) and bit flips are outside the domain",
+                     "after a damaged batch the sub-streams may be out of step: on the following batch only panics inside Consumer.Consume are reported"],
+    ),
 }
